@@ -91,14 +91,14 @@ Fixpoint compile_rules (l : list rawrule) : option (list (rule cop)) :=
 
 (* the whole transaction of a case, as the theorems of SetvarProofs talk about it *)
 Definition run_model (args hdrs : list (bytes * bytes)) (rs : list (rule cop)) : st :=
-  eval_tx cop cop_eval {| e_args := args; e_hdrs := hdrs |} rs st_init.
+  eval_tx cop_eval {| e_args := args; e_hdrs := hdrs |} rs st_init.
 
 (* ---- observations ---- *)
 Inductive oevent :=
   | OMatching (rid : Z) (vn key : bytes) | OAct (name : bytes) | OSetvar (key value : bytes) (rid : Z)
   | OFlow (name : bytes) | ODisr (name : bytes) | ORuleMatched (rid : Z).
 Inductive omd := OMD (var key value msg data : bytes).
-Inductive omr := OMR (id : Z) (msg data : bytes) (mds : list omd).
+Inductive omr := OMR (id : Z) (sev : Z) (msg data : bytes) (mds : list omd).
 Inductive otoken := OTok (text vname key : bytes).
 
 Definition erase (e : event) : oevent :=
@@ -136,8 +136,8 @@ Fixpoint mds_eqb (a : list mdata) (b : list omd) : bool :=
   | _, _ => false
   end.
 Definition mr_eqb (m : mrule) (o : omr) : bool :=
-  let '(OMR id msg d mds) := o in
-  Z.eqb (mr_id m) id && bytes_eqb (mr_msg m) msg && bytes_eqb (mr_data m) d && mds_eqb (mr_mds m) mds.
+  let '(OMR id sev msg d mds) := o in
+  Z.eqb (mr_id m) id && Z.eqb (match mr_sev m with Some x => x | None => (-1)%Z end) sev && bytes_eqb (mr_msg m) msg && bytes_eqb (mr_data m) d && mds_eqb (mr_mds m) mds.
 Fixpoint mrs_eqb (a : list mrule) (b : list omr) : bool :=
   match a, b with
   | [], [] => true
@@ -145,7 +145,7 @@ Fixpoint mrs_eqb (a : list mrule) (b : list omr) : bool :=
   | _, _ => false
   end.
 Definition mr_ids_eqb (a : list mrule) (b : list omr) : bool :=
-  list_eqb Z.eqb (map mr_id a) (map (fun o => let '(OMR id _ _ _) := o in id) b).
+  list_eqb Z.eqb (map mr_id a) (map (fun o => let '(OMR id _ _ _ _) := o in id) b).
 
 Definition tok_eqb (t : token) (o : otoken) : bool :=
   let '(OTok tx vn k) := o in
